@@ -880,6 +880,7 @@ def _execute(sim, plan):
         bad.sort(key=lambda kr: (kr[1]["signature"][2] in ANTICIPATED, kr[0]))
         k, res = bad[0]
         plan["only"] = [k]
+        sim.notes["violation_digest"] = res["digest"]  # of the failing point alone: equal in batch and replay
         sim.notes["sub_trace"] = res.get("trace_tail")
         for e in res.get("trace_tail") or []:
             sim.event("  sub", *e)
